@@ -323,6 +323,8 @@ func (r *runner) peer(st Step) {
 	if st.Arr || len(parts) > 1 {
 		txt = "[" + strings.Join(parts, ",") + "]"
 	}
+	// insignificant JSON whitespace in front of the record (space, tab, LF, CR) changes nothing
+	txt = []string{"", " ", "\n", "\r\n", "\t", " \n ", "\r", "\n\n"}[r.nrec%8] + txt
 	txt += strings.Repeat(" ", r.nrec) // makes every record's bytes unique (gate matching)
 	r.recs = append(r.recs, []byte(txt))
 	r.ch.Push([]byte(txt), vh.Event{"n": r.nrec, "items": abs})
